@@ -8,6 +8,7 @@ import (
 	"strings"
 	"testing"
 
+	"github.com/alttpo/snes/emulator"
 	"pgregory.net/rapid"
 
 	"verif/harness/rig"
@@ -317,11 +318,67 @@ func c14Check(c c14Case) error {
 	return nil
 }
 
+// c14RealMap runs a small loop whose last instruction ends exactly at $70:7FFF (the byte after it,
+// $70:8000, is not mapped in the emulated console) on a System with its real memory map, with and
+// without a Logger: tracing must not make the run fail or end differently.
+type c14MapCase struct {
+	Body   []byte `json:"body"` // instruction bytes (M=X=1), followed by BRA back to the start
+	Cycles int    `json:"cycles"`
+	Bank   uint32 `json:"bank"` // $70, $71, $F0 or $F1
+}
+
+func c14RealMapCheck(c c14MapCase) error {
+	code := append(append([]byte(nil), c.Body...), 0x80, byte(-(len(c.Body) + 2)))
+	startOff := 0x8000 - len(code)
+	run := func(logger bool) (rig.Raw, []byte, error) {
+		sys := &emulator.System{}
+		if err := sys.CreateEmulator(); err != nil {
+			return rig.Raw{}, nil, err
+		}
+		half := int(c.Bank&1) * 0x8000
+		copy(sys.SRAM[half+startOff:], code)
+		cpu := rig.WrapPrimary(&sys.CPU, &sys.Bus)
+		cpu.LoadRaw(rig.ArchToRaw(wdc.Arch{S: 0x01F0, PC: uint16(startOff), K: byte(c.Bank), DBR: 0x7E, P: 0x30}))
+		lw := &countWriter{}
+		if logger {
+			sys.Logger = lw
+		}
+		var pan interface{}
+		func() {
+			defer func() { pan = recover() }()
+			sys.RunUntil(0xEE1234, uint64(c.Cycles))
+		}()
+		if pan != nil {
+			return cpu.Raw(), nil, fmt.Errorf("%v", pan)
+		}
+		return cpu.Raw(), append([]byte(nil), sys.WRAM[:0x200]...), nil
+	}
+	r0, m0, e0 := run(false)
+	if e0 != nil {
+		return nil // the program itself fails without tracing: not a tracing matter
+	}
+	r1, m1, e1 := run(true)
+	if e1 != nil {
+		return fmt.Errorf("program at $%02X:%04X-$7FFF runs fine untraced but fails with a Logger attached: %v", c.Bank, startOff, e1)
+	}
+	if r0 != r1 || !bytes.Equal(m0, m1) {
+		return fmt.Errorf("program at the end of the SRAM window: traced final state %+v differs from untraced %+v", r1, r0)
+	}
+	return nil
+}
+
 func init() {
 	rig.RegisterReplay("C14", func(data []byte) error {
 		var rf rig.ReplayFile
 		if err := json.Unmarshal(data, &rf); err != nil {
 			return err
+		}
+		if rf.Kind == "realmap" {
+			var mc c14MapCase
+			if err := json.Unmarshal(rf.Case, &mc); err != nil {
+				return err
+			}
+			return c14RealMapCheck(mc)
 		}
 		var c c14Case
 		if err := json.Unmarshal(rf.Case, &c); err != nil {
@@ -396,6 +453,30 @@ func TestC14(t *testing.T) {
 				ev.Case(true, rig.Hash64(raw), func() interface{} { return c })
 				ev.Class("impl/" + c.Impl)
 			})
+			if rig.Shard() == 0 {
+				// real memory map: every body of 0..3 one- and two-byte instructions before the closing BRA
+				one := []byte{0xE8, 0xC8, 0xEA, 0x1A, 0xCA}
+				two := [][]byte{{0xA9, 0x12}, {0xA2, 0x34}, {0x09, 0x80}}
+				var bodies [][]byte
+				bodies = append(bodies, nil)
+				for _, a := range one {
+					bodies = append(bodies, []byte{a})
+					for _, b := range two {
+						bodies = append(bodies, append([]byte{a}, b...), append(append([]byte(nil), b...), a), append(append([]byte(nil), b...), b...))
+					}
+				}
+				n := 0
+				for _, bank := range []uint32{0x70, 0x71, 0xF0, 0xF1} {
+					for _, body := range bodies {
+						mc := c14MapCase{Body: body, Cycles: 40, Bank: bank}
+						r.CheckSweep("realmap", mc, func() error { return c14RealMapCheck(mc) })
+						raw, _ := json.Marshal(mc)
+						ev.Case(true, rig.Hash64(raw), nil)
+						n++
+					}
+				}
+				ev.ClassN("real-map/program-ends-at-the-last-mapped-byte", int64(n))
+			}
 			ev.Extra["opcode_x_M_x_X_cells"] = cells[:]
 			ev.Extra["const_cells_layout"] = "index = opcode<<2 | m8<<1 | x8; value = traced instructions"
 			ev.Extra["rel8_backward_lines"] = backward
